@@ -80,6 +80,8 @@ def check_dec(m, side, raw):
 
 
 def shard(args):
+    if args[0] == 'register':
+        return shard_register(args)
     kind, fc, tier = args
     acc = Acc()
     side = 'req' if kind == 'req' else 'rsp'
@@ -157,11 +159,75 @@ def shard(args):
     return acc
 
 
+def shard_register(args):
+    """register() adds the application's own classes to ONE decoder: a vendor diagnostic sub-function (08/0x0064), a
+    vendor MEI type (2B/0x0D) and a new function code (0x45).  Every standard PDU still decodes to its class and
+    fields, and the vendor PDUs decode to the vendor classes."""
+    import struct
+    from pymodbus.factory import ServerDecoder, ClientDecoder
+    from pymodbus.pdu import ModbusRequest, ModbusResponse
+    side = args[1]
+    acc = Acc()
+    base = ModbusRequest if side == 'req' else ModbusResponse
+
+    import pymodbus.diag_message as dm
+    import pymodbus.mei_message as mm
+
+    def vendor(name, fc):
+        ns = dict(function_code=fc, _rtu_frame_size=8, __init__=lambda self, **kw: base.__init__(self, **kw),
+                  encode=lambda self: self.raw, decode=lambda self, data: setattr(self, 'raw', bytes(data)),
+                  execute=lambda self, ctx: self)
+        return type(name, (base,), ns)
+    dec = (ServerDecoder if side == 'req' else ClientDecoder)()
+    # vendor sub-functions derive from the library's own function-level classes (whose decode() reads the sub-code)
+    v_diag = type('VendorDiag', (dm.DiagnosticStatusRequest if side == 'req' else dm.DiagnosticStatusResponse,), dict(sub_function_code=0x64))
+    v_mei = type('VendorMei', (mm.ReadDeviceInformationRequest if side == 'req' else mm.ReadDeviceInformationResponse,), dict(sub_function_code=0x0D))
+    v_new = vendor('VendorFc45', 0x45)
+    for v in (v_diag, v_mei, v_new):
+        dec.register(v)
+    kinds = ('req',) if side == 'req' else ('rsp', 'exc')
+    for kind, fc in gen.CLASSES:
+        if kind not in kinds:
+            continue
+        seen = set()
+        for m in gen.messages(kind, fc, 'quick'):
+            key = (m.get('sub'), m.get('read_code')) if kind != 'exc' else (m['fc'] in (8, 0x2B, 0x45),)
+            if key in seen:
+                continue
+            seen.add(key)
+            raw = pdu.encode(m)
+            if len(raw) > 253:
+                continue
+            acc.inc('evaluations')
+            want = bind.cls_name(m)
+            try:
+                o = dec.decode(raw)
+                got = type(o).__name__
+                if want in [c.__name__ for c in type(o).__mro__]:
+                    got = want          # register() replaces the function-level class: a vendor subclass of it IS that class
+            except Exception as e:   # noqa
+                got = 'raise:' + type(e).__name__
+            if got != want:
+                acc.violation('C01/%s/dec/after-register' % want, dict(cls=want, dir='register', side=side, pdu=raw.hex()),
+                              'after registering vendor classes on this decoder a standard %s PDU decodes as %s' % (want, got), want)
+    for v, raw in ((v_diag, struct.pack('>BHH', 8, 0x64, 1)), (v_mei, bytes([0x2B, 0x0D, 1, 0]) if side == 'req' else bytes([0x2B, 0x0D, 1, 1, 0, 0, 0])), (v_new, bytes([0x45, 9, 9]))):
+        acc.inc('evaluations')
+        try:
+            got = type(dec.decode(raw)).__name__
+        except Exception as e:   # noqa
+            got = 'raise:' + type(e).__name__
+        if got != v.__name__:
+            acc.violation('C01/%s/dec/registered-class-not-used' % v.__name__, dict(cls=v.__name__, dir='register', side=side, pdu=raw.hex()),
+                          'the registered class is not chosen for its own PDU: %s' % got, v.__name__)
+    acc.add('classes', ('register', side))
+    return acc
+
+
 def run(tier, seed):
-    shards = [(k, fc, tier) for k, fc in gen.CLASSES]
+    shards = [(k, fc, tier) for k, fc in gen.CLASSES] + [('register', 'req', tier), ('register', 'rsp', tier)]
     acc = par.run_shards(shard, shards)
     he = None
-    if acc.count('classes') != len(gen.CLASSES):
+    if acc.count('classes') != len(gen.CLASSES) + 2:
         he = 'not every message class was enumerated'
     return dict(acc=acc, level=LEVEL, harness_error=he,
                 coverage=dict(
@@ -186,6 +252,10 @@ def replay(w):
     m = pdu.decode(side, raw)
     lines = ['class %s pdu %s' % (w['cls'], w['pdu'][:120])]
     bad = False
+    if w['dir'] == 'register':
+        acc = shard_register(('register', side, 'quick'))
+        vs = [v for v in acc.violations if v['witness'] == w]
+        return bool(vs), '\n'.join(v['msg'] for v in vs) or 'no violation'
     if w['dir'] == 'scalar':
         acc = shard(('req', m['fc'], 'quick'))
         vs = [v for v in acc.violations if v['witness'] == w]
